@@ -32,6 +32,10 @@ def units(tier):
         for rep in pools.REPS:
             for ys in (A.Y_S[:6], A.Y_S[6:]):
                 us.append(("addsub", kind, rep, ys))
+    for a in A.KINDS:
+        for b in A.KINDS:
+            if a != b:
+                us.append(("switch", a, b))
     return us
 
 
@@ -154,6 +158,18 @@ def _far_entries(kind, y):
 
 def run_unit(unit, ctx):
     u, kind = unit[0], unit[1]
+    if u == "switch":
+        # distances across several years in mode A, then the same pairs in mode B, then A again, in one process
+        for kx in (unit[1], unit[2], unit[1]):
+            impl.set_mode(A.MODE_OF[kx])
+            cx = M.cal(kx)
+            pts = []
+            for y in (1999, 2000, 2001, 2004, 2005):
+                pts += build_pool(ctx, kx, _far_entries(kx, y)[::2])
+            for x in pts:
+                for y_ in pts:
+                    check_pair(ctx, kx, cx, x, y_)
+        return
     impl.set_mode(A.MODE_OF[kind])
     c = M.cal(kind)
     tier = ctx.tier
